@@ -1,5 +1,5 @@
 import Gossamer.Props.C06
-open Gossamer Gossamer.C06
+open Gossamer Gossamer.C06 Gossamer.C06.Nb
 #print axioms C06_root_eq_spec
 #print axioms C06_reopen
 #print axioms C06_get
@@ -8,3 +8,21 @@ open Gossamer Gossamer.C06
 #print axioms C06_reopen_collision
 #print axioms C06_history_independent
 #print axioms C06_threshold
+#print axioms C06_nibbles_len_refines
+#print axioms C06_nibbles_at_refines
+#print axioms C06_nibbles_mid_refines
+#print axioms C06_nibbles_advance_refines
+#print axioms C06_nibbles_nodeKey_refines
+#print axioms C06_nibbles_left_refines
+#print axioms C06_nibbles_commonPrefix_refines
+#print axioms C06_nibbles_startsWith_refines
+#print axioms C06_nibbles_right_refines
+#print axioms C06_nibbles_shiftKey_refines
+#print axioms C06_nibbles_combineKey_refines
+#print axioms C06_nibbles_nodeKeyRange_refines
+#print axioms C06_nibbles_push_refines
+#print axioms C06_nibbles_nsPrefix_refines
+#print axioms C06_nibbles_dropLasts_refines
+#print axioms C06_nibbles_appendPartial_refines
+#print axioms C06_nibbles_appendOpt_refines
+#print axioms C06_nibbles_prefix_injective
